@@ -113,7 +113,9 @@ def gop(o):
             for l in o["rc"]["logs"]:
                 ev = "None" if l["ev"] is None else "(Some %s)" % gev(l["ev"])
                 logs.append("(Some (mkRLog %d (Some %d) %s))" % (l["a"], int(l["t0"], 16), ev))
-            rc = "(Some (mkRcpt %d (Some %d) %s))" % (o["rc"]["st"], o["rc"]["blk"], core.glist(logs))
+            # noblk: blockNumber null in the receipt (a transaction back in the pool): receipt.BlockNumber is nil
+            blk = "None" if o["rc"].get("noblk") else "(Some %d)" % o["rc"]["blk"]
+            rc = "(Some (mkRcpt %d %s %s))" % (o["rc"]["st"], blk, core.glist(logs))
         return "(GCOp (COp (OReobs %s %s %s %s)))" % (hb, ha, rc, bt)
     # ---- extension X4: Run returns and is re-entered on the same Watcher value
     if t == "loglost":
@@ -441,6 +443,9 @@ def run(ctx):
                      "(the steps from the head that parks to the step that ends the hand-over are one group: the model has no processor, a parked send "
                      "is the same model step as an immediate one); histories in which Run returned while a hand-over was parked are judged by the monitors only",
     }
+    ctx.cov["receipts_without_block (transaction back in the pool: status 1, blockHash null, blockNumber null)"] = {
+        "histories_with_reorg_pooled": sum(1 for r in rows if any(s.get("how") == "pooled" for s in r["script"])),
+        "such_receipts_served_to_the_watcher": stats.get("receipts_served_without_block", 0)}
     ctx.cov["restarts_of_Run"] = stats.get("restarts", 0)
     ctx.cov["histories_with_restarts"] = sum(1 for r in rows if (r.get("stats") or {}).get("restarts"))
     ctx.cov["monitor_classes"] = {k: v[0] for k, v in seen.items()}
@@ -513,6 +518,7 @@ def run(ctx):
         "the state `w.pending non-empty and block poller off` is observed as: not one eth_getBlockByNumber request for 5 s at a 1 ms poll interval while messages are pending and no insertion is in flight (monitor liveness:pending-with-poller-off)",
         "hand-over to the processor: in the hand-over histories the message channel is unbuffered (as lockC in node/cmd/guardiand/node.go) and a scripted reader stands for the processor; 'the moment of forwarding' of a parked hand-over is the moment the watcher decided (its receipt lookup in the scan), not the moment the reader took the message; a hand-over is written off 6 s after the reader is back and Run is up again",
         "the head subscription delivers what the poller publishes in order (go-ethereum event.Feed); the watcher's own 'processing new header' / 'processed new header' log lines are the trace of head processing (a rewording shows up as rendezvous timeouts)",
+        "a transaction that a reorg put back into the pool is answered either 'not found' (geth) or with a pending-style receipt (status 1, blockHash null, blockNumber null, no logs; go-ethereum decodes null as the zero hash / nil number): such a receipt does not point to the block of the log, so the message must not be forwarded (the pinned scan drops the entry as re-mined; the re-observation path fails at the block-time lookup of the zero hash, which the simulated node answers null like a real node)",
         "receipts whose JSON does not unmarshal (non-nil receipt together with an error) are not generated",
         "logs with an empty topic list / a receipt without block number inside a re-observed receipt make the real code panic (Topics[0], BlockNumber.Uint64()); modelled as explicit Panic outcomes, exercised on the real MessageEventsForTransaction / ParseLogMessagePublished under recover (extension X8) and, as an experiment in a child process, on the real Run (the process ends): robustness remark, needs a node that serves a log the core contract cannot emit",
         "extension X8: raw logs reach the code through go-ethereum's JSON decoding of logs / receipts (exercised, not modelled; topics are 32-byte hashes, addresses 20 bytes by construction of the Go types); abigen's copy of the unpacked values into the event struct is by field name as read from abi.go; error classes are read off go-ethereum's error texts ('length insufficient' is the text of two different checks and compared as one class)",
